@@ -787,6 +787,68 @@ async fn assembly_case(seed: u64) -> Out {
 	out
 }
 
+// A subscription declared with the rpc macro, with aliases for its subscribe and its unsubscribe method.
+mod macro_api {
+	use jsonrpsee::core::SubscriptionResult;
+	use jsonrpsee::proc_macros::rpc;
+	#[rpc(server, namespace = "feed")]
+	pub trait Feed {
+		#[subscription(name = "subscribe" => "item", unsubscribe = "unsubscribe", item = u64, aliases = ["feed_sub_alias"], unsubscribe_aliases = ["feed_unsub_alias", "feed.unsub2"])]
+		async fn feed(&self) -> SubscriptionResult;
+	}
+}
+struct FeedImpl;
+#[async_trait::async_trait]
+impl macro_api::FeedServer for FeedImpl {
+	async fn feed(&self, pending: jsonrpsee::PendingSubscriptionSink) -> jsonrpsee::core::SubscriptionResult {
+		let sink = pending.accept().await?;
+		sink.closed().await;
+		Ok(())
+	}
+}
+
+/// Directed family: a macro-declared subscription is subscribed and unsubscribed through every name the declaration gives
+/// the two methods; whichever unsubscribe name is used, it answers true once for an active subscription, false afterwards,
+/// and the slot is free again (cap 1: the next subscribe is admitted).
+async fn macro_alias_case(seed: u64) -> Out {
+	use macro_api::FeedServer;
+	let mut out = Out::default();
+	let mut r = Rng::new(seed);
+	let cfg = ServerConfig::builder().max_subscriptions_per_connection(1).max_connections(10).build();
+	let srv = MemServer::new(cfg, FeedImpl.into_rpc());
+	let Ok(mut ws) = srv.ws().await else { return out };
+	macro_rules! bad {
+		($sig:expr, $($arg:tt)*) => { out.violations.push(($sig.to_string(), format!($($arg)*))) };
+	}
+	let mut next_call = 0u64;
+	for round in 0..2 + r.usize(3) {
+		let sub = *r.pick(&["feed_subscribe", "feed_sub_alias"]);
+		let unsub = *r.pick(&["feed_unsubscribe", "feed_unsub_alias", "feed.unsub2"]);
+		next_call += 1;
+		let _ = ws.send_text(&json!({"jsonrpc": "2.0", "id": next_call, "method": sub}).to_string()).await;
+		settle().await;
+		let rp = ws.drain_until_idle(Duration::from_millis(50)).await.iter().filter_map(|f| f.json()).find(|v| v["id"] == json!(next_call));
+		let Some(id) = rp.as_ref().and_then(|v| v.get("result")).cloned() else {
+			bad!(format!("refused-with-free-slot/subscribe/macro-declared:{sub}"), "round {round}: every earlier subscription was unsubscribed (cap 1), yet {sub} answered {rp:?}");
+			return out;
+		};
+		out.admissions += 1;
+		for want in [true, false] {
+			next_call += 1;
+			let _ = ws.send_text(&json!({"jsonrpc": "2.0", "id": next_call, "method": unsub, "params": [id]}).to_string()).await;
+			settle().await;
+			let rp = ws.drain_until_idle(Duration::from_millis(50)).await.iter().filter_map(|f| f.json()).find(|v| v["id"] == json!(next_call));
+			out.ops_checked += 1;
+			if rp.as_ref().map(|v| v["result"].clone()) != Some(json!(want)) {
+				bad!(format!("unsubscribe-result-wrong/{}/macro-declared:{unsub}", if want { "active" } else { "already-unsubscribed" }), "round {round}: {unsub} [{id}] answered {rp:?}, model {want}");
+				return out;
+			}
+			if want { out.unsub_true += 1 } else { out.unsub_false += 1 }
+		}
+	}
+	out
+}
+
 /// Id provider driven by the harness: hands out the queued ids first (so that an id can be issued again on the same
 /// connection, as the library's own `NoopIdProvider` or a short `RandomStringIdProvider` do), then fresh numbers.
 #[derive(Debug, Clone, Default)]
@@ -1504,6 +1566,8 @@ fn main() {
 		if let Some(sc) = w["witness"]["scenario"].as_str() {
 			let o = if sc.starts_with("a subscription id is issued again") {
 				block_on_virtual(id_reuse_case(seed))
+			} else if sc.starts_with("a macro-declared subscription") {
+				block_on_virtual(macro_alias_case(seed))
 			} else if sc.starts_with("the per-connection service is assembled") {
 				block_on_virtual(assembly_case(seed))
 			} else if sc.starts_with("the subscribe response does not fit") {
@@ -1642,6 +1706,25 @@ fn main() {
 			}
 			for (sig, d) in o.violations {
 				violations.push(Violation::new(sig, d, json!({"scenario": "the per-connection service is assembled in another way than the accept loop does", "seed": s, "history": o.history})));
+			}
+		}
+	}
+	if !replay {
+		let n = ctx.tier.pick(100u64, 5_000);
+		let seed = ctx.seed;
+		let res = run_parallel((0..n).collect(), |_, i| {
+			let s = Rng::fork(seed, 65_000_000 + i).next_u64();
+			(s, block_on_virtual(macro_alias_case(s)))
+		});
+		for (s, o) in res {
+			ev.eval();
+			ev.count("cases_macro_declared_aliases", 1);
+			ev.count("operations_checked", o.ops_checked as u64);
+			if o.admissions > 1 {
+				ev.nontrivial(&("macro-alias", s));
+			}
+			for (sig, d) in o.violations {
+				violations.push(Violation::new(sig, d, json!({"scenario": "a macro-declared subscription used through its aliases", "seed": s, "history": o.history})));
 			}
 		}
 	}
